@@ -11824,3 +11824,92 @@ func E11ArcFlagConsulted(c *core.Ctx, r *core.Report) {
 	r.Count("E11.arc-flag-consulted", n)
 	r.Floor("E11.arc-flag-consulted", 4)
 }
+
+// E11ArcJoinDirectionFlags: the arcs joiner walks the two offset circles in opposite senses, at every call.
+func E11ArcJoinDirectionFlags(c *core.Ctx, r *core.Report) {
+	r.Rule("E11.arc-join-direction-flags", "ArcsJoiner.Join extends the offset curve of the segment before the corner forwards and that of the segment after it backwards until they meet, and asks closestArcIntersection for the crossing that comes first along each circle. The sense in which a circle is walked follows from the sign of its segment's radius, and because the second segment is walked backwards its flag is the negation of the first one's form: every call that passes a comparison of the first radius passes the same comparison, every call that passes one of the second radius passes the same one, and the second is the negation of the first with the radius renamed (`r0 < 0` and `0 <= r1`). One call written like its neighbour for the other segment picks the far crossing as the join tip: a fin beyond the miter limit")
+	p := c.MustPkg("")
+	info := p.TypesInfo
+	fd := core.MustFuncDecl(p, "ArcsJoiner.Join")
+	r.Func("canvas.ArcsJoiner.Join")
+	// the two radius parameters: the last two float64 parameters
+	var radii []types.Object
+	for _, f := range fd.Type.Params.List {
+		for _, nm := range f.Names {
+			if b, ok := info.TypeOf(f.Type).Underlying().(*types.Basic); ok && b.Kind() == types.Float64 {
+				radii = append(radii, info.Defs[nm])
+			}
+		}
+	}
+	if len(radii) < 2 {
+		panic(core.Infra("ArcsJoiner.Join: radius parameters not found"))
+	}
+	r0, r1 := radii[len(radii)-2], radii[len(radii)-1]
+	type site struct {
+		pos  token.Pos
+		text string
+		neg  string
+	}
+	groups := map[types.Object][]site{}
+	negate := func(e ast.Expr) string {
+		be, ok := core.Unparen(e).(*ast.BinaryExpr)
+		if !ok {
+			return "!(" + types.ExprString(e) + ")"
+		}
+		switch be.Op {
+		case token.LSS: // a < b  ->  b <= a
+			return types.ExprString(be.Y) + " <= " + types.ExprString(be.X)
+		case token.LEQ: // a <= b ->  b < a
+			return types.ExprString(be.Y) + " < " + types.ExprString(be.X)
+		}
+		return "!(" + types.ExprString(e) + ")"
+	}
+	ast.Inspect(fd.Body, func(m ast.Node) bool {
+		call, ok := m.(*ast.CallExpr)
+		if !ok || len(call.Args) < 2 {
+			return true
+		}
+		if f := core.CalleeOf(info, call); f == nil || f.Name() != "closestArcIntersection" {
+			return true
+		}
+		flag := call.Args[1]
+		for _, rad := range []types.Object{r0, r1} {
+			hit := false
+			ast.Inspect(flag, func(k ast.Node) bool {
+				if id, ok := k.(*ast.Ident); ok && core.ObjOf(info, id) == rad {
+					hit = true
+				}
+				return true
+			})
+			if hit {
+				groups[rad] = append(groups[rad], site{call.Pos(), types.ExprString(flag), negate(flag)})
+			}
+		}
+		return true
+	})
+	n := len(groups[r0]) + len(groups[r1])
+	r.Count("E11.arc-join-direction-flags", n)
+	r.Floor("E11.arc-join-direction-flags", 4)
+	if len(groups[r0]) == 0 || len(groups[r1]) == 0 {
+		r.Fail("E11.arc-join-direction-flags", "canvas.ArcsJoiner.Join|direction flags", c.Pos(fd.Pos()), "calls of closestArcIntersection with a flag computed from each of the two radii were not found")
+		return
+	}
+	ref0 := groups[r0][0].text
+	want1 := strings.ReplaceAll(groups[r0][0].neg, r0.Name(), r1.Name())
+	for i, s := range groups[r0] {
+		key := fmt.Sprintf("canvas.ArcsJoiner.Join|direction flag of the first circle #%d", i+1)
+		if s.text == ref0 {
+			r.OK("E11.arc-join-direction-flags", key, c.Pos(s.pos), s.text)
+		} else {
+			r.Fail("E11.arc-join-direction-flags", key, c.Pos(s.pos), fmt.Sprintf("the flag `%s` differs from the one the other call for the same circle passes (`%s`)", s.text, ref0))
+		}
+	}
+	for i, s := range groups[r1] {
+		key := fmt.Sprintf("canvas.ArcsJoiner.Join|direction flag of the second circle #%d", i+1)
+		if s.text == want1 {
+			r.OK("E11.arc-join-direction-flags", key, c.Pos(s.pos), s.text)
+		} else {
+			r.Fail("E11.arc-join-direction-flags", key, c.Pos(s.pos), fmt.Sprintf("the second circle is walked backwards from the corner, so its flag is the negation of the first one's form, `%s`; this call passes `%s` and closestArcIntersection returns the far crossing: the join tip lies beyond the miter limit", want1, s.text))
+		}
+	}
+}
